@@ -455,6 +455,16 @@ class FnAnalysis(Analysis):
             elts = None
             if isinstance(value_node, (ast.Tuple, ast.List)) and len(value_node.elts) == len(target.elts):
                 elts = [self.val(x, st) for x in value_node.elts]
+            if elts is None and v.fields and v.built and len(v.types) == 1:
+                # a NamedTuple built from known arguments unpacks into them
+                c = self.prog.classes.get(next(iter(v.types)))
+                rf = self.prog.record_fields(c) if c is not None and self.prog.is_namedtuple(c) else None
+                fd = dict(v.fields)
+                if rf is not None and len(rf) == len(target.elts) and all(f in fd for f, _d in rf):
+                    elts = [fd[f] for f, _d in rf]
+            if elts is None and v.fields and v.exact == len(target.elts) and all(f"#{i}" in dict(v.fields) for i in range(len(target.elts))):
+                fd = dict(v.fields)
+                elts = [fd[f"#{i}"] for i in range(len(target.elts))]
             for i, t in enumerate(target.elts):
                 if elts is not None:
                     self.assign(t, elts[i], st, None)
@@ -991,6 +1001,8 @@ class FnAnalysis(Analysis):
                     self.raiser(e, "IndexError", "", proved="index bounded below the container length")
                 else:
                     self.raiser(e, "LookupError", "peer-controlled index / key into a container without a membership or bounds fact")
+        if base.fields and k is not None and base.exact is not None and -base.exact <= k < base.exact and f"#{k % base.exact}" in dict(base.fields):
+            return dict(base.fields)[f"#{k % base.exact}"]
         if base.elem is not None:
             return base.elem.but(taint=base.elem.taint or base.taint)
         kind = {"bytes": "int", "str": "str", "strlist": "str"}.get(base.kind, "any")
@@ -1123,7 +1135,10 @@ class FnAnalysis(Analysis):
         elem = None
         for v in vals:
             elem = v if elem is None else join_val(elem, v)
-        return Val(any(v.taint for v in vals), "list", len(vals), len(vals), elem=elem)
+        pos = None
+        if isinstance(e, ast.Tuple) and 0 < len(vals) <= 8 and not any(isinstance(x, ast.Starred) for x in e.elts):
+            pos = tuple((f"#{i}", v) for i, v in enumerate(vals))          # a small tuple keeps its positions (multi-value returns)
+        return Val(any(v.taint for v in vals), "list", len(vals), len(vals), elem=elem, fields=pos)
 
     v_List = v_Tuple
     v_Set = v_Tuple
@@ -1423,6 +1438,9 @@ class FnAnalysis(Analysis):
             cands = [self.prog.classes[q] for q in argv[0].classes if q in self.prog.classes]
             if len(cands) == 1:
                 self_cls = cands[0]
+        if target.qual in self.chain and (st.ctl or any(deep_taint(v) for v in argv)) and self.R.cfg.sources is not None:
+            # a function re-entering itself as often as the peer's data says: the depth is not bounded by the code
+            self.raiser(e, "RecursionError", f"{target.name} calls itself on a path selected by peer data: the recursion depth is peer-controlled")
         rv, esc = self.R.summary(target, self_cls or target.cls, args, st.ctl, self.chain)
         self.pending += esc
         if override is not None:
@@ -1446,6 +1464,23 @@ class FnAnalysis(Analysis):
                         self.raiser(e, "ValueError", f"{c.name}(<peer value>): not every value is a member")
                 continue
             ext = self.prog.ext_bases(c)
+            rf = self.prog.record_fields(c)
+            if rf is not None and len(classes) == 1 and len(argv) <= len(rf) and (not getattr(e, "keywords", None) or all(k.arg for k in e.keywords)):
+                # NamedTuple / plain dataclass: the object is its arguments, under the field names (and by position for a NamedTuple)
+                fd = {}
+                for i, (f, default) in enumerate(rf):
+                    if i < len(argv):
+                        fd[f] = argv[i]
+                    elif f in kwv:
+                        fd[f] = kwv[f]
+                    elif default is not None:
+                        fd[f] = self.val(default, st) if isinstance(default, ast.Constant) else CLEAN
+                    else:
+                        fd = None
+                        break
+                if fd is not None:
+                    return Val(taint=any_taint, kind="obj", types=frozenset([q]), built=True, fields=tuple(sorted(fd.items(), key=lambda kv: kv[0])),
+                               elem=None, exact=len(rf) if self.prog.is_namedtuple(c) else None, lb=len(rf) if self.prog.is_namedtuple(c) else 0)
             ini = self.prog.lookup_method(c, "__init__")
             if ini is not None:
                 obj = Val(taint=any_taint, kind="obj", types=frozenset([q]), built=True)
